@@ -21,7 +21,7 @@ func WrapError(err error) error {
 	} else {
 		code = twirp.Internal
 	}
-	twerr := twirp.NewError(code, err.Error())
+	twerr := twirp.NewError(code, errorMessage(err))
 	twerr = twerr.WithMeta("cause", fmt.Sprintf("%T", err)) // to easily tell apart wrapped internal errors from explicit ones
 	return twirp.WrapError(twerr, err)
 }
@@ -33,8 +33,18 @@ func WrapErrorKV(key string, err error) error {
 	} else {
 		code = twirp.Internal
 	}
-	twerr := twirp.NewError(code, err.Error())
+	twerr := twirp.NewError(code, errorMessage(err))
 	twerr = twerr.WithMeta("cause", fmt.Sprintf("%T", err)) // to easily tell apart wrapped internal errors from explicit ones
 	twerr = twerr.WithMeta("kv", key)
 	return twirp.WrapError(twerr, err)
+}
+
+// errorMessage is what the caller's chord.ErrorMapper sees: a defined chord error keeps its
+// own message even when it was wrapped on the way, otherwise its identity (and with it
+// whether the caller may retry) would be lost
+func errorMessage(err error) string {
+	if canonical, ok := chord.ErrorCanonical(err); ok {
+		return canonical.Error()
+	}
+	return err.Error()
 }
